@@ -38,7 +38,7 @@ Fixpoint pos_str (x : str) (l : list str) : option nat :=
   end.
 (* the original name of the (current) output name o of nd: positional, as _default_output_picker *)
 Definition orig_out (nd : node) (o : str) : str :=
-  match pos_str o (outs (nf nd)) with Some i => nth i (noorig nd) o | None => o end.
+  match pos_str o (outs (nf nd)) with Some i => nth i (noorig nd) [] | None => [] end.
 
 (* the names of the user functions fused into a node (invariant under every rewrite); size of a node *)
 Fixpoint prim_names (nd : node) : list str :=
